@@ -5,6 +5,7 @@ use serde_json::{json, Value};
 use std::io::{BufRead, Write};
 
 mod ops;
+mod reg;
 
 fn leak(s: &str) -> &'static str {
     Box::leak(s.to_owned().into_boxed_str())
